@@ -5,7 +5,7 @@ import "verif/hook"
 // deferred calls of builtins (Go permits close, delete, copy, panic, print, println, recover
 // in statement context). One function per builtin, loaded one by one in the interpreter.
 
-//---DeferClose
+// ---DeferClose
 func DeferClose() {
 	ch := make(chan int, 1)
 	f := func() {
@@ -18,7 +18,7 @@ func DeferClose() {
 	hook.Ev("close", v, ok, ok2)
 }
 
-//---DeferDelete
+// ---DeferDelete
 func DeferDelete() {
 	m := map[string]int{"a": 1, "b": 2}
 	f := func() {
@@ -33,7 +33,7 @@ func DeferDelete() {
 	hook.Ev("delete", len(m), hasA, hasB)
 }
 
-//---DeferCopy
+// ---DeferCopy
 func DeferCopy() {
 	s := []int{1, 2, 3}
 	f := func() {
@@ -46,7 +46,7 @@ func DeferCopy() {
 	hook.Ev("copy", s[0], s[1], s[2])
 }
 
-//---DeferPanic
+// ---DeferPanic
 func DeferPanic() {
 	f := func() (r interface{}) {
 		defer func() {
@@ -58,7 +58,7 @@ func DeferPanic() {
 	hook.Ev("panic", f())
 }
 
-//---DeferRecover
+// ---DeferRecover
 func DeferRecover() {
 	f := func() (r int) {
 		defer func() {
